@@ -1,6 +1,15 @@
 #[macro_use]
 extern crate include_dir;
 
+/// Like `eprintln!`, but a stderr that has gone away (`agrind ... 2>&1 | head -1`) must not turn the
+/// message into a panic: nobody is left to read it.
+macro_rules! complain {
+    ($($arg:tt)*) => {{
+        use std::io::Write as _;
+        let _ = writeln!(std::io::stderr(), $($arg)*);
+    }};
+}
+
 mod alias;
 pub mod data;
 mod errors;
@@ -11,15 +20,6 @@ pub mod operator;
 mod printer;
 mod render;
 mod typecheck;
-
-/// Like `eprintln!`, but a stderr that has gone away (`agrind ... 2>&1 | head -1`) must not turn the
-/// message into a panic: nobody is left to read it.
-macro_rules! complain {
-    ($($arg:tt)*) => {{
-        use std::io::Write as _;
-        let _ = writeln!(std::io::stderr(), $($arg)*);
-    }};
-}
 
 pub mod pipeline {
     use crate::data::{DisplayConfig, Record, Row};
@@ -163,6 +163,9 @@ pub mod pipeline {
             let query = pipeline.parse()?;
             let filters = convert_filter(query.search)?;
             let mut in_agg = false;
+            // a real aggregation has been seen (a sort alone is not one): rows dropped after it are
+            // dropped silently, rows dropped after a mere sort are reported like anywhere else
+            let mut grouped = false;
             let mut pre_agg: Vec<Box<dyn operator::UnaryPreAggOperator>> = Vec::new();
             let mut post_agg: Vec<Box<dyn operator::AggregateOperator>> = Vec::new();
             let mut op_deque = query.operators.into_iter().collect::<VecDeque<_>>();
@@ -182,11 +185,14 @@ pub mod pipeline {
                         if !in_agg {
                             pre_agg.push(op_builder.build());
                         } else {
-                            post_agg.push(Box::new(operator::PreAggAdapter::new(op_builder)));
+                            post_agg.push(Box::new(
+                                operator::PreAggAdapter::new(op_builder).reporting(!grouped),
+                            ));
                         }
                     }
                     Operator::MultiAggregate(agg_op) => {
                         in_agg = true;
+                        grouped = true;
                         let sorter = Pipeline::implicit_sort(&agg_op);
                         if let Ok(op) = Pipeline::convert_multi_agg(agg_op, pipeline) {
                             post_agg.push(op);
